@@ -680,7 +680,10 @@ func (g *genCtx) method() string {
 // request generates one ordinary (class-less) request.
 func (g *genCtx) request(rid string) *rq {
 	r := g.r
-	q := &rq{Rid: rid, Proto: "HTTP/1.1", Op: r.Intn(nOps)}
+	q := &rq{Rid: rid, Proto: "HTTP/1.1", Op: r.Intn(12)}
+	if r.Chance(1, 8) {
+		q.Op = 12 + r.Intn(nOps-12) // SendFile from in-memory file systems
+	}
 	q.Method = g.method()
 	if r.Chance(1, 30) {
 		q.Proto = "HTTP/1.0"
